@@ -32,7 +32,25 @@ class Summary:
 
     @property
     def live(self):
-        return [p for p in self.paths if not p.aborted]
+        return LiveList([p for p in self.paths if not p.aborted], self.fn)
+
+
+class NoLivePath(Exception):
+    """every path of the function ends in the assertion handler (or was cut): it cannot complete normally"""
+    def __init__(self, fn):
+        Exception.__init__(self, fn.get("qn", "?"))
+        self.fn = fn
+
+
+class LiveList(list):
+    def __init__(self, items, fn):
+        list.__init__(self, items)
+        self.fn = fn
+
+    def __getitem__(self, i):
+        if isinstance(i, int) and not len(self):
+            raise NoLivePath(self.fn)
+        return list.__getitem__(self, i)
 
 
 def facts_before(path, idx):
